@@ -244,9 +244,14 @@ class Ppar(EventPattern):
                 outevent = stream.next(inevent)
                 outevent = evt.event(outevent)  # as_event
                 # // Requeue stream.
-                queue.add(now + float(outevent('delta')), stream)
+                delta = outevent('delta')
+                queue.add(now + float(delta), stream)
                 nexttime = queue.peek()[0]
-                outevent['delta'] = nexttime - now
+                if isinstance(delta, evt.Rest):
+                    # Keep the event a rest (as Pdur does).
+                    outevent['delta'] = evt.Rest(nexttime - now)
+                else:
+                    outevent['delta'] = nexttime - now
                 inevent = yield outevent
                 now = nexttime
             except stm.StopStream:  # next
